@@ -5,6 +5,7 @@ import (
 	"go/ast"
 	"go/token"
 	"go/types"
+	"runtime"
 	"strings"
 )
 
@@ -62,7 +63,10 @@ func (x *Exec) VerifyFunc(key string, fc *FuncContract) (err error) {
 				err = fmt.Errorf("%s: unsupported: %s", key, ue.msg)
 				return
 			}
-			panic(r)
+			// internal error of the generator: report, never crash the whole check
+			buf := make([]byte, 4096)
+			n := runtime.Stack(buf, false)
+			err = fmt.Errorf("%s: generator internal error: %v\n%s", key, r, firstLines(string(buf[:n]), 14))
 		}
 	}()
 	ctx := &FuncCtx{Name: shortPkg(fc.Pkg) + "." + fc.Name, Short: fc.Name, Contract: fc, NoPanic: fc.NoPanic, Props: fc.Props, Pkg: pkg,
@@ -211,6 +215,9 @@ func (x *Exec) atReturn(fr *Frame, st *State, ctx *FuncCtx, sig *types.Signature
 		ob.Results = results
 		ob.Pos = fmt.Sprintf("%s (ensures %s)", ctx.Contract.File, e.Src)
 	}
+	if ctx.Contract.Pure {
+		x.pureFrame(fr, st, ctx)
+	}
 	x.onFuncExit(fr, st, ctx, env)
 	// canary: this return must be reachable under the contract's assumptions
 	x.Obls = append(x.Obls, &Obligation{Func: ctx.Name, Kind: "canary", Label: "return", Name: ctx.Name + "#canary:return",
@@ -249,4 +256,35 @@ func (x *Exec) bindFreeVars(fr *Frame, lit *ast.FuncLit, outer *ast.FuncDecl, st
 		ctx.ParamT[obj.Name()] = t
 		return true
 	})
+}
+
+func firstLines(s string, n int) string {
+	lines := strings.Split(s, "\n")
+	if len(lines) > n {
+		lines = lines[:n]
+	}
+	return strings.Join(lines, "\n")
+}
+
+// pureFrame: a function declared pure leaves every heap location that was
+// allocated at entry unchanged (it may allocate and initialise new objects).
+func (x *Exec) pureFrame(fr *Frame, st *State, ctx *FuncCtx) {
+	if st.havocked {
+		x.oblige(fr, st, "frame", "pure/havoc", TFalse, nil)
+		return
+	}
+	for _, key := range st.heapKeys() {
+		cur := st.heap[key]
+		if cur.Op == "var" {
+			continue // never written
+		}
+		init := Var("H0_"+sanitize(key), cur.Sort)
+		x.quantN++
+		a := Var(fmt.Sprintf("qa_%d", x.quantN), SInt)
+		goal := Forall([]*Term{a}, Implies(Select(Var("alloc0", ArrOf(SBool)), a), Eq(Select(cur, a), Select(init, a))))
+		if strings.HasPrefix(key, "map_") {
+			goal = Forall([]*Term{a}, Implies(Select(Var("alloc0", ArrOf(SBool)), a), Eq(Select(cur, a), Select(init, a))))
+		}
+		x.oblige(fr, st, "frame", "pure/"+key, goal, nil)
+	}
 }
